@@ -36,40 +36,36 @@ example : decodeLVal (encodeLVal (.map [([107], .slice [.int 1, .map [([], .byte
 /-! ## traces -/
 
 /-- A single span under its resource and scope: every field the statement names (ids, parent span id and
-remote bit, name, kind, timestamps, attributes, events, links, status, dropped counts) is recovered, up to
-`normSpan`; needs the F16 exclusion (no link carries a trace state). -/
-theorem span_decode_encode_partial (s : Span) (h : F16_span s = false) :
-    decodeSpan (s.resource.map normResource) (normScope s.scope) (encodeSpan s) = some (normSpan s) :=
-  decodeSpan_encodeSpan s h
+remote bit, name, kind, timestamps, attributes, events, links incl. their trace state, status, dropped counts) is
+recovered, up to `normSpan`. No exclusion (F16 is repaired). -/
+theorem span_decode_encode (s : Span) :
+    decodeSpan (normRes s.resource) (normScope s.scope) (encodeSpan s) = some (normSpan s) :=
+  decodeSpan_encodeSpan s
 
-/-- **spans_decode_encode (partial: F16 and F32 excluded).** For every batch (nil entries, any number of
-resources and scopes, shared or not): decoding the payload of `Spans` yields exactly the normalised input spans in
-grouped order, each carrying the resource and scope of the group it was found in = its own.
-`¬F32_applies`: spans whose resources have the same attribute set have the same resource (the Go code keys
-resources by `Resource.Equivalent()`, which ignores the schema URL and nil-ness: F32). -/
-theorem spans_decode_encode_partial (sdl : List (Option Span)) (hF : F16_applies sdl = false)
-    (hR : F32_applies sdl = false) :
+/-- **spans_decode_encode — full, no exclusion** (F16 and F32 are repaired in the tree this models).
+For every batch (nil entries, any number of resources and scopes, shared or not, resources that differ only in
+their schema URL, nil and empty resources): decoding the payload of `Spans` yields exactly the normalised input
+spans in grouped order, each carrying the resource (attributes + schema URL) and scope of the group it was found
+in = its own. With `spans_encode_multiset`: every span is recovered exactly once under its own resource and scope
+with all listed fields. (`normRes`: a nil `*Resource` and `resource.Empty()` are the same resource — no attributes,
+no schema URL — which is also all a wire round trip can say.) -/
+theorem spans_decode_encode (sdl : List (Option Span)) :
     decodeSpans (encodeSpans sdl) = some ((groupedSpans sdl).map normSpan) := by
-  have hC : ResConsistent (sdl.filterMap id) :=
-    resConsistent_of_B _ (by simpa [F32_applies] using hR)
   unfold decodeSpans encodeSpans
   have : mapOpt decodeResourceSpans
-      ((groupBy (fun s => resKey s.resource) (·.resource) (sdl.filterMap id)).map encodeResourceSpans) =
-      some ((groupBy (fun s => resKey s.resource) (·.resource) (sdl.filterMap id)).map
+      ((groupBy (fun s => resGroupKey s.resource) (·.resource) (sdl.filterMap id)).map encodeResourceSpans) =
+      some ((groupBy (fun s => resGroupKey s.resource) (·.resource) (sdl.filterMap id)).map
         fun g => (scopeGrouped g.2.2).map normSpan) := by
     apply mapOpt_map
     intro g hg
     apply decodeResourceSpans_encodeResourceSpans
     intro s hs
-    have hmem := groupBy_mem _ _ _ g hg s hs
-    have hok := groupBy_ok (fun s : Span => resKey s.resource) (·.resource) _ g hg
+    have hok := groupBy_ok (fun s : Span => resGroupKey s.resource) (·.resource) _ g hg
     obtain ⟨w, hw, hp⟩ := hok.2
-    have hwmem := groupBy_mem _ _ _ g hg w hw
-    refine ⟨?_, ?_⟩
-    · rw [hp]
-      exact hC s hmem w hwmem ((hok.1 s hs).trans (hok.1 w hw).symm)
-    · simp only [F16_applies, List.any_eq_false] at hF
-      simpa using hF s hmem
+    have hk : resGroupKey s.resource = resGroupKey w.resource := (hok.1 s hs).trans (hok.1 w hw).symm
+    rw [hp]
+    simp only [resGroupKey, Prod.mk.injEq] at hk
+    simp only [normRes, hk.1, hk.2]
   rw [this]
   simp only [Option.map_some, groupedSpans, List.flatMap_def]
   rw [← flatten_map_map, List.map_map]
@@ -80,81 +76,72 @@ once (a permutation: grouping only reorders). -/
 theorem spans_encode_multiset (sdl : List (Option Span)) : (groupedSpans sdl).Perm (sdl.filterMap id) :=
   groupedSpans_perm sdl
 
-/-- **encode_grouping (traces).** No two ResourceSpans have the same resource key, every span of a group has
-the group's key, and the group's resource is the resource of one of its spans; inside a ResourceSpans no two
-ScopeSpans have the same scope and every span sits under its own scope. -/
+/-- **encode_grouping (traces).** No two ResourceSpans have the same resource key (attributes + schema URL),
+every span of a group has the group's key, and the group's resource is the resource of one of its spans; inside a
+ResourceSpans no two ScopeSpans have the same scope and every span sits under its own scope. -/
 theorem spans_encode_grouping (sdl : List (Option Span)) :
-    let gs := groupBy (fun s : Span => resKey s.resource) (·.resource) (sdl.filterMap id)
+    let gs := groupBy (fun s : Span => resGroupKey s.resource) (·.resource) (sdl.filterMap id)
     (gs.map (·.1)).Nodup ∧
-    (∀ g ∈ gs, (∀ s ∈ g.2.2, resKey s.resource = g.1) ∧ (∃ s ∈ g.2.2, g.2.1 = s.resource) ∧
+    (∀ g ∈ gs, (∀ s ∈ g.2.2, resGroupKey s.resource = g.1) ∧ (∃ s ∈ g.2.2, g.2.1 = s.resource) ∧
       ((groupBy (·.scope) (fun _ => ()) g.2.2).map (·.1)).Nodup ∧
       ∀ sg ∈ groupBy (·.scope) (fun _ => ()) g.2.2, ∀ s ∈ sg.2.2, s.scope = sg.1) := by
   intro gs
   refine ⟨groupBy_nodup _ _ _, ?_⟩
   intro g hg
-  have hok := groupBy_ok (fun s : Span => resKey s.resource) (·.resource) _ g hg
+  have hok := groupBy_ok (fun s : Span => resGroupKey s.resource) (·.resource) _ g hg
   refine ⟨hok.1, hok.2, groupBy_nodup _ _ _, ?_⟩
   intro sg hsg s hs
   exact (groupBy_ok (fun s : Span => s.scope) (fun _ => ()) _ sg hsg).1 s hs
 
-/-- **spans: the payload determines every named field (partial: F16, F32 excluded).** Two batches that are
-encoded to the same payload have the same normalised spans — group by group in the same order, hence the same
-multiset of normalised input spans: no field kept by `normSpan` (ids, parent span id and remote bit, name,
-kind, timestamps, attributes, events, links, status, dropped counts, resource, scope) can change without the
-payload changing. Corollary of `spans_decode_encode_partial`. -/
-theorem spans_encode_injective_partial (a b : List (Option Span))
-    (ha : F16_applies a = false ∧ F32_applies a = false) (hb : F16_applies b = false ∧ F32_applies b = false)
-    (h : encodeSpans a = encodeSpans b) :
+/-- **spans: the payload determines every named field.** Two batches that are encoded to the same payload have
+the same normalised spans — group by group in the same order, hence the same multiset of normalised input spans:
+no field kept by `normSpan` (ids, parent span id and remote bit, name, kind, timestamps, attributes, events, links,
+status, dropped counts, resource, scope) can change without the payload changing. Corollary of
+`spans_decode_encode`. -/
+theorem spans_encode_injective (a b : List (Option Span)) (h : encodeSpans a = encodeSpans b) :
     (groupedSpans a).map normSpan = (groupedSpans b).map normSpan ∧
     ((a.filterMap id).map normSpan).Perm ((b.filterMap id).map normSpan) := by
-  have h1 := spans_decode_encode_partial a ha.1 ha.2
-  rw [h, spans_decode_encode_partial b hb.1 hb.2] at h1
+  have h1 := spans_decode_encode a
+  rw [h, spans_decode_encode b] at h1
   have heq := (Option.some.inj h1).symm
   refine ⟨heq, ?_⟩
   exact (((groupedSpans_perm a).map normSpan).symm.trans (heq ▸ List.Perm.refl _)).trans
     ((groupedSpans_perm b).map normSpan)
 
-/-- the full statement (false on the current code: F16, F32) -/
-def spans_decode_encode_full_statement : Prop :=
-  ∀ sdl : List (Option Span), decodeSpans (encodeSpans sdl) = some ((groupedSpans sdl).map normSpan)
-
 /-! ## logs -/
 
-/-- **logs, normalised form (F32 excluded).** What the payload of `ResourceLogs` decodes to for *any* values:
-the input records in grouped order, each under its own resource and scope, with empty values rewritten to the
-string "INVALID" (`normLog`/`normLVal` — this rewriting is F33, not a tolerated lossy point).
-`r.flags < 256`: trace flags are one byte. -/
-theorem logs_decode_encode_normalised (rs : List LogRecord) (hR : F32_appliesLogs rs = false)
-    (hf : ∀ r ∈ rs, r.flags < 256) :
+/-- **logs, normalised form (no exclusion).** What the payload of `ResourceLogs` decodes to for *any* values:
+the input records in grouped order, each under its own resource (attributes + schema URL, F32 repaired) and scope,
+with empty values rewritten to the string "INVALID" (`normLog`/`normLVal` — this rewriting is F33, not a tolerated
+lossy point). `r.flags < 256`: trace flags are one byte. -/
+theorem logs_decode_encode_normalised (rs : List LogRecord) (hf : ∀ r ∈ rs, r.flags < 256) :
     decodeLogs (encodeLogs rs) = some ((groupedLogs rs).map normLog) := by
-  have hC : LogResConsistent rs := logResConsistent_of_B _ (by simpa [F32_appliesLogs] using hR)
   unfold decodeLogs encodeLogs
-  have : mapOpt decodeResourceLogs ((groupBy (·.resource.attrs) (·.resource) rs).map encodeResourceLogs) =
-      some ((groupBy (·.resource.attrs) (·.resource) rs).map fun g => (scopeGroupedLogs g.2.2).map normLog) := by
+  have : mapOpt decodeResourceLogs ((groupBy (·.resource) (·.resource) rs).map encodeResourceLogs) =
+      some ((groupBy (·.resource) (·.resource) rs).map fun g => (scopeGroupedLogs g.2.2).map normLog) := by
     apply mapOpt_map
     intro g hg
     apply decodeResourceLogs_encodeResourceLogs
     intro r hr
     have hmem := groupBy_mem _ _ _ g hg r hr
-    have hok := groupBy_ok (fun r : LogRecord => r.resource.attrs) (·.resource) _ g hg
+    have hok := groupBy_ok (fun r : LogRecord => r.resource) (·.resource) _ g hg
     obtain ⟨w, hw, hp⟩ := hok.2
-    have hwmem := groupBy_mem _ _ _ g hg w hw
     refine ⟨?_, hf r hmem⟩
     rw [hp]
-    exact hC r hmem w hwmem ((hok.1 r hr).trans (hok.1 w hw).symm)
+    exact (hok.1 r hr).trans (hok.1 w hw).symm
   rw [this]
   simp only [Option.map_some, groupedLogs, List.flatMap_def]
   rw [← flatten_map_map, List.map_map]
   rfl
 
-/-- **logs_decode_encode (partial: F32 and F33 excluded).** For every batch of records without an empty value
+/-- **logs_decode_encode (partial: F33 is the ONLY exclusion).** For every batch of records without an empty value
 (body, attributes, nested ones included): decoding the payload yields exactly the input records in grouped order,
 each under its own resource and scope, with body and (nested) attribute values **unchanged** and severity, ids,
 flags, timestamps, event name and dropped count (the F18 repair) up to the stated range points of `normLogS`. -/
-theorem logs_decode_encode_partial (rs : List LogRecord) (hR : F32_appliesLogs rs = false)
-    (hE : F33_applies rs = false) (hf : ∀ r ∈ rs, r.flags < 256) :
+theorem logs_decode_encode_partial (rs : List LogRecord) (hE : F33_applies rs = false)
+    (hf : ∀ r ∈ rs, r.flags < 256) :
     decodeLogs (encodeLogs rs) = some ((groupedLogs rs).map normLogS) := by
-  rw [logs_decode_encode_normalised rs hR hf]
+  rw [logs_decode_encode_normalised rs hf]
   congr 1
   apply List.map_congr_left
   intro r hr
@@ -164,23 +151,23 @@ theorem logs_decode_encode_partial (rs : List LogRecord) (hR : F32_appliesLogs r
   simp only [Bool.or_eq_true, Bool.not_eq_true', not_or, Bool.not_eq_false] at this
   exact normLog_eq_normLogS r this.1 this.2
 
-/-- **logs: the payload determines every named field (partial: F32, F33 excluded).** Two batches of records
+/-- **logs: the payload determines every named field (partial: F33 excluded).** Two batches of records
 without empty values that are encoded to the same payload have the same records up to `normLogS` (body and
 nested attribute values unchanged) — group by group, hence as multisets. Corollary of
 `logs_decode_encode_partial`. -/
 theorem logs_encode_injective_partial (a b : List LogRecord)
-    (ha : F32_appliesLogs a = false ∧ F33_applies a = false ∧ ∀ r ∈ a, r.flags < 256)
-    (hb : F32_appliesLogs b = false ∧ F33_applies b = false ∧ ∀ r ∈ b, r.flags < 256)
+    (ha : F33_applies a = false ∧ ∀ r ∈ a, r.flags < 256)
+    (hb : F33_applies b = false ∧ ∀ r ∈ b, r.flags < 256)
     (h : encodeLogs a = encodeLogs b) :
     (groupedLogs a).map normLogS = (groupedLogs b).map normLogS ∧ (a.map normLogS).Perm (b.map normLogS) := by
-  have h1 := logs_decode_encode_partial a ha.1 ha.2.1 ha.2.2
-  rw [h, logs_decode_encode_partial b hb.1 hb.2.1 hb.2.2] at h1
+  have h1 := logs_decode_encode_partial a ha.1 ha.2
+  rw [h, logs_decode_encode_partial b hb.1 hb.2] at h1
   have heq := (Option.some.inj h1).symm
   refine ⟨heq, ?_⟩
   exact (((groupedLogs_perm a).map normLogS).symm.trans (heq ▸ List.Perm.refl _)).trans
     ((groupedLogs_perm b).map normLogS)
 
-/-- the full statement (false on the current code: F32, F33) -/
+/-- the full statement (false on the current code: F33 only) -/
 def logs_decode_encode_full_statement : Prop :=
   ∀ rs : List LogRecord, (∀ r ∈ rs, r.flags < 256) →
     decodeLogs (encodeLogs rs) = some ((groupedLogs rs).map normLogS)
@@ -188,17 +175,17 @@ def logs_decode_encode_full_statement : Prop :=
 /-- **encode_multiset (logs).** -/
 theorem logs_encode_multiset (rs : List LogRecord) : (groupedLogs rs).Perm rs := groupedLogs_perm rs
 
-/-- **encode_grouping (logs).** -/
+/-- **encode_grouping (logs).** Resources are keyed by attributes and schema URL. -/
 theorem logs_encode_grouping (rs : List LogRecord) :
-    let gs := groupBy (fun r : LogRecord => r.resource.attrs) (·.resource) rs
+    let gs := groupBy (fun r : LogRecord => r.resource) (·.resource) rs
     (gs.map (·.1)).Nodup ∧
-    (∀ g ∈ gs, (∀ r ∈ g.2.2, r.resource.attrs = g.1) ∧ (∃ r ∈ g.2.2, g.2.1 = r.resource) ∧
+    (∀ g ∈ gs, (∀ r ∈ g.2.2, r.resource = g.1) ∧ (∃ r ∈ g.2.2, g.2.1 = r.resource) ∧
       ((groupBy (·.scope) (fun _ => ()) g.2.2).map (·.1)).Nodup ∧
       ∀ sg ∈ groupBy (·.scope) (fun _ => ()) g.2.2, ∀ r ∈ sg.2.2, r.scope = sg.1) := by
   intro gs
   refine ⟨groupBy_nodup _ _ _, ?_⟩
   intro g hg
-  have hok := groupBy_ok (fun r : LogRecord => r.resource.attrs) (·.resource) _ g hg
+  have hok := groupBy_ok (fun r : LogRecord => r.resource) (·.resource) _ g hg
   refine ⟨hok.1, hok.2, groupBy_nodup _ _ _, ?_⟩
   intro sg hsg r hr
   exact (groupBy_ok (fun r : LogRecord => r.scope) (fun _ => ()) _ sg hsg).1 r hr
@@ -258,7 +245,7 @@ theorem metrics_encode_injective_partial (a b : ResourceMetrics)
 def metrics_decode_encode_full_statement : Prop :=
   ∀ rm : ResourceMetrics, decodeResourceMetrics (encodeResourceMetrics rm) = some (normResourceMetrics rm)
 
-/-! ## the known findings, with witnesses -/
+/-! ## the known findings (F17, F33) with witnesses; the repaired ones (F16, F32) as regression examples -/
 
 def f16Witness : List (Option Span) :=
   [some { name := [115], sc := ⟨[1, 0, 0, 0, 0, 0, 0, 0, 0, 0, 0, 0, 0, 0, 0, 0], [3, 0, 0, 0, 0, 0, 0, 0], 0, [], false⟩,
@@ -267,11 +254,8 @@ def f16Witness : List (Option Span) :=
           statusCode := 0, statusDesc := [], droppedAttrs := 0, droppedEvents := 0, droppedLinks := 0, childCount := 0,
           resource := none, scope := ⟨[], [], [], []⟩ }]
 
-/-- **F16 witness**: a link whose span context carries the trace state `a=1` comes back without it, so
-`spans_decode_encode_full_statement` is false for the code as written. -/
-theorem spans_decode_encode_witness :
-    F16_applies f16Witness = true ∧
-    decodeSpans (encodeSpans f16Witness) ≠ some ((groupedSpans f16Witness).map normSpan) := by
+/-- the former F16 witness (a link with trace state `a=1`) now round-trips with its trace state -/
+example : (decodeSpans (encodeSpans f16Witness)).map (·.map (·.links.map (·.sc.traceState))) = some [[[97, 61, 49]]] := by
   decide
 
 def f17Witness : ResourceMetrics :=
@@ -295,11 +279,11 @@ def witSpan (r : Option Resource) : Span :=
 def f32Witness : List (Option Span) :=
   [some (witSpan (some ⟨[⟨[114], .str [49]⟩], [97]⟩)), some (witSpan (some ⟨[⟨[114], .str [49]⟩], [98]⟩))]
 
-/-- **F32 witness (traces)**: two spans whose resources have the attribute `r="1"` and the schema URLs `a` and
-`b`: the second span comes back under schema URL `a`. -/
-theorem spans_F32_witness :
-    F32_applies f32Witness = true ∧ F16_applies f32Witness = false ∧
-    decodeSpans (encodeSpans f32Witness) ≠ some ((groupedSpans f32Witness).map normSpan) := by
+/-- the former F32 witness (same attributes, schema URLs `a` and `b`) now yields two ResourceSpans and each span
+comes back under its own schema URL; a nil and an empty resource share one group -/
+example : (encodeSpans f32Witness).length = 2 ∧
+    (decodeSpans (encodeSpans f32Witness)).map (·.map (·.resource.map (·.schemaUrl))) = some [some [97], some [98]] ∧
+    (encodeSpans [some (witSpan none), some (witSpan (some ⟨[], []⟩))]).length = 1 := by
   decide
 
 def witLog (schema : Bytes) (body : LVal) : LogRecord :=
@@ -310,21 +294,15 @@ def witLog (schema : Bytes) (body : LVal) : LogRecord :=
 def f32LogWitness : List LogRecord := [witLog [97] (.str [98]), witLog [98] (.str [98])]
 def f33LogWitness : List LogRecord := [witLog [] .empty]
 
-/-- **F32 witness (logs)**: the second record comes back under the first record's schema URL. -/
-theorem logs_F32_witness :
-    F32_appliesLogs f32LogWitness = true ∧ F33_applies f32LogWitness = false ∧
-    decodeLogs (encodeLogs f32LogWitness) ≠ some ((groupedLogs f32LogWitness).map normLogS) := by
-  refine ⟨by decide, by decide, ?_⟩
-  intro h
-  have := congrArg (fun o : Option (List LogRecord) => o.map (·.map (·.resource.schemaUrl))) h
-  revert this
+example : (encodeLogs f32LogWitness).length = 2 ∧
+    (decodeLogs (encodeLogs f32LogWitness)).map (·.map (·.resource.schemaUrl)) = some [[97], [98]] := by
   decide
 
 /-- **F33 witness**: a record without a body comes back with the string body "INVALID". -/
 theorem logs_F33_witness :
-    F33_applies f33LogWitness = true ∧ F32_appliesLogs f33LogWitness = false ∧
+    F33_applies f33LogWitness = true ∧
     decodeLogs (encodeLogs f33LogWitness) ≠ some ((groupedLogs f33LogWitness).map normLogS) := by
-  refine ⟨by decide, by decide, ?_⟩
+  refine ⟨by decide, ?_⟩
   intro h
   have := congrArg (fun o : Option (List LogRecord) =>
     o.map (·.map fun r => match r.body with | .str s => some s | _ => none)) h
@@ -480,8 +458,6 @@ example : zipkinTraceId [0, 0, 0, 0, 0, 0, 1, 2, 0, 0, 0, 0, 0, 0, 0, 3] = (258,
 
 /-! ## non-vacuity: the hypotheses of the theorems above are satisfiable by non-trivial concrete cases -/
 
-instance (ss : List Span) : Decidable (ResConsistent ss) := by unfold ResConsistent; infer_instance
-instance (rs : List LogRecord) : Decidable (LogResConsistent rs) := by unfold LogResConsistent; infer_instance
 
 def exRes1 : Resource := ⟨[⟨[114], .str [49]⟩], [117]⟩
 def exRes2 : Resource := ⟨[⟨[114], .intSlice [1, 2]⟩], []⟩
@@ -498,14 +474,12 @@ def exBatch : List (Option Span) :=
   [some (exSpan (some exRes1) exScope 1), none, some (exSpan (some exRes2) ⟨[], [], [], []⟩ 2),
    some (exSpan (some exRes1) ⟨[], [], [], []⟩ 3), some (exSpan none exScope 4), some (exSpan (some exRes1) exScope 5)]
 
-example : F16_applies exBatch = false ∧ F32_applies exBatch = false ∧
-    (encodeSpans exBatch).length = 3 ∧ (groupedSpans exBatch).map (·.name) = [[1], [5], [3], [2], [4]] ∧
+example : (encodeSpans exBatch).length = 3 ∧ (groupedSpans exBatch).map (·.name) = [[1], [5], [3], [2], [4]] ∧
     decodeSpans (encodeSpans exBatch) = some ((groupedSpans exBatch).map normSpan) := by decide
 
-/-- the hypotheses of `spans_encode_injective_partial` are met by two different batches with the same payload
+/-- the hypothesis of `spans_encode_injective` is met by two different batches with the same payload
 (nil entries are skipped), and a batch that differs in one named field has another payload -/
-example : F16_applies (exBatch.filter Option.isSome) = false ∧ F32_applies (exBatch.filter Option.isSome) = false ∧
-    exBatch.length ≠ (exBatch.filter Option.isSome).length ∧
+example : exBatch.length ≠ (exBatch.filter Option.isSome).length ∧
     (encodeSpans exBatch == encodeSpans (exBatch.filter Option.isSome)) = true ∧
     (encodeSpans [some (exSpan none exScope 1)] == encodeSpans [some { exSpan none exScope 1 with kind := 2 }]) = false := by
   decide
@@ -517,14 +491,14 @@ def exLog (r : Resource) (sc : Scope) (n : UInt8) : LogRecord :=
     dropped := 7, resource := r, scope := sc }
 def exLogs : List LogRecord := [exLog exRes1 exScope 1, exLog ⟨[], []⟩ exScope 2, exLog exRes1 ⟨[], [], [], []⟩ 3, exLog exRes1 exScope 4]
 
-example : F32_appliesLogs exLogs = false ∧ (∀ r ∈ exLogs, r.flags < 256) ∧ (encodeLogs exLogs).length = 2 ∧
+example : (∀ r ∈ exLogs, r.flags < 256) ∧ (encodeLogs exLogs).length = 2 ∧
     (groupedLogs exLogs).map (·.eventName) = [[1], [4], [3], [2]] := by decide
 
 def exLogsPlain : List LogRecord :=
   [witLog [97] (.map [([107], .slice [.int 1, .map [([], .bytes [0])]])]), witLog [97] (.str [98]),
    { witLog [97] (.bool true) with scope := exScope, attrs := [([97], .slice [])] }]
 
-example : F32_appliesLogs exLogsPlain = false ∧ F33_applies exLogsPlain = false ∧
+example : F33_applies exLogsPlain = false ∧
     (∀ r ∈ exLogsPlain, r.flags < 256) ∧ (encodeLogs exLogsPlain).length = 1 := by decide
 
 def exMetrics : ResourceMetrics :=
